@@ -200,10 +200,15 @@ class Ctx:
         return fn
 
 
+LONG_FORMS = {86400.0: '1D', 90000.0: '25h', 5400.0: '90min'}
+
+
 def _ival(spec):
     """the interval of a time-based node, as a number or (ival_str) in the string form the API also accepts"""
     v = spec['interval']
     if spec.get('ival_str'):
+        if v in LONG_FORMS:
+            return LONG_FORMS[v]
         ms = int(round(v * 1000))
         return '%ds' % (ms // 1000) if ms % 1000 == 0 else '%dms' % ms
     return v
